@@ -25,12 +25,14 @@ class Cfg:
     special_leaves: bool = True  # doomed / identity / zero-column leaves
     loose_bounds: bool = True
     sql_variants: tuple = ("plain", "plain", "renamed", "alias", "subquery", "where")
+    iter_variants: tuple = ("plain", "plain", "custom", "mapping")  # payload class of iteration-engine leaves
     vmin: int = -3
     vmax: int = 3
     p_binary: float = 0.25
     avoid_order_loss: bool = True  # steer away from binary ops / materialize on an un-sliced sort (SQL)
     pred_depth: int = 2
     expr_depth: int = 2
+    prelude: float = 0.0  # probability of starting from a drawn SELECT state (subset of sort/proj/dedup/slice)
     avoid: frozenset = frozenset()  # keys of known findings whose trigger region generation steers around
 
 
@@ -82,7 +84,7 @@ def st_leaf(draw, cfg, universe, index, earlier=()):
     nrows = draw(st.integers(0, cfg.max_rows))
     keycols = [c for c in cols if c.is_key]
     nonkey = [c for c in cols if not c.is_key]
-    val = st.integers(cfg.vmin, cfg.vmax)
+    val = st.integers(cfg.vmin, cfg.vmax) if draw(st.integers(0, 3)) else st.integers(0, 1)
     if not nonkey:
         rows = draw(st.lists(st.tuples(*[val for _ in cols]), min_size=nrows, max_size=nrows))
     else:
@@ -113,7 +115,7 @@ def st_leaf(draw, cfg, universe, index, earlier=()):
             bounds = (0, None)
         elif shape == "loose":
             bounds = (draw(st.integers(0, n)), n + draw(st.integers(0, 3)))
-    variant = draw(st.sampled_from(cfg.sql_variants)) if eng == 0 else "plain"
+    variant = draw(st.sampled_from(cfg.sql_variants if eng == 0 else cfg.iter_variants))
     return (name, cols, rows, eng, "data", bounds, variant)
 
 
@@ -133,15 +135,38 @@ def st_sort_terms(draw, cols, total_bias=True, max_terms=3, depth=1):
 
 @st.composite
 def st_slice(draw, max_start=4, max_len=4):
+    r = draw(st.integers(0, 19))
+    if r == 0:
+        return (0, 0)
+    if r == 1:
+        k = draw(st.integers(0, max_start))
+        return (k, k)
     s = draw(st.integers(0, max_start))
-    e = draw(st.one_of(st.none(), st.integers(s, s + max_len)))
-    return (s, e)
+    if draw(st.integers(0, 2)) == 0:
+        return (s, None)
+    return (s, s + draw(st.integers(0, max_len)))
+
+
+# after an operation of the key kind, these kinds are three times as likely: they are the sequences on which the
+# engines' rewrite rules (merging into one SELECT, nesting subqueries, commutation) fire
+MOTIFS = {
+    "slice": ("sel", "sort", "dedup", "slice"),
+    "dedup": ("proj", "slice", "sort"),
+    "sort": ("slice", "proj", "dedup", "sort"),
+    "chain": ("dedup", "proj", "sort", "slice", "sel", "calc"),
+    "proj": ("calc", "dedup", "proj"),
+    "calc": ("proj", "sel", "sort"),
+    "join": ("proj", "slice", "dedup", "sel"),
+    "sel": ("slice", "sel"),
+}
 
 
 @st.composite
-def st_unary_node(draw, src, cols, universe, kinds, cfg, counter=None):
+def st_unary_node(draw, src, cols, universe, kinds, cfg, counter=None, hidden=()):
     """Draw a unary operation valid for a source with columns `cols`.  Returns a node or None."""
     kinds = list(kinds)
+    pref = [k for k in MOTIFS.get(src[0], ()) if k in kinds]
+    kinds = kinds + pref + pref
     free = [t for t in universe if t not in cols]
     if not cols:
         kinds = [k for k in kinds if k not in ("calc", "sort")]
@@ -151,7 +176,9 @@ def st_unary_node(draw, src, cols, universe, kinds, cfg, counter=None):
         return None
     k = draw(st.sampled_from(kinds))
     if k == "calc":
-        return ("calc", src, draw(st.sampled_from(free)), draw(st_expr(cols, cfg.expr_depth, need_ref=True)))
+        hid = [t for t in hidden if t in free]
+        tag = draw(st.sampled_from(hid)) if hid and draw(st.booleans()) else draw(st.sampled_from(free))
+        return ("calc", src, tag, draw(st_expr(cols, cfg.expr_depth, need_ref=True)))
     if k == "proj":
         order = draw(st.permutations(sorted_tags(cols))) if cols else []
         keep = draw(st.integers(0, len(order)))
@@ -246,6 +273,25 @@ def st_program(draw, cfg, universe=None, leaves=None):
         sides.append(side)
         if side[0] != "leaf":
             sides.append(("leaf", i))
+    if cfg.prelude and draw(st.integers(0, 99)) < cfg.prelude * 100:
+        # build one SELECT level carrying a drawn subset of {sort, projection, deduplication, slice}, optionally over a
+        # selection / calculation / chain, so that every (state, next operation) cell of the engine's rules is reached
+        base = draw(st.sampled_from(["leaf", "leaf", "sel", "calc", "chain"]))
+        if base in ("sel", "calc"):
+            node = draw(st_unary_node(main, schema(main, leaves), universe, (base,), cfg))
+            main = node or main
+        elif base == "chain" and "chain" in cfg.binary:
+            other = draw(st_unary_node(main, schema(main, leaves), universe, ("sel", "dedup"), cfg)) or main
+            main = ("chain", main, other)
+        order = ["sort", "proj", "dedup", "slice"]
+        if draw(st.integers(0, 3)) == 0:
+            order = list(draw(st.permutations(order)))
+        flags = draw(st.integers(1, 15))
+        for bit, k in enumerate(order):
+            if flags >> bit & 1 and k in cfg.unary:
+                node = draw(st_unary_node(main, schema(main, leaves), universe, (k,), cfg))
+                if node is not None:
+                    main = node
     history = [main]
     counter = [0]
     # steering around the trigger regions of open known findings (DESIGN 3.5); one case in ten is left un-steered
@@ -260,14 +306,15 @@ def st_program(draw, cfg, universe=None, leaves=None):
         eng = engine_of(main, leaves)
         choice = "u"
         r = draw(st.integers(0, 99))
-        if cfg.binary and r < cfg.p_binary * 100:
+        if cfg.binary and r < cfg.p_binary * 100 * (2 if main[0] in ("slice", "proj", "dedup") else 1):
             choice = draw(st.sampled_from(cfg.binary))
         elif cfg.markers and r >= 100 - 6 * len(cfg.markers):
             choice = draw(st.sampled_from(cfg.markers))
         node = None
         steer = sql(eng) and draw(st.integers(0, 9)) > 0
         if choice == "u":
-            node = draw(st_unary_node(main, cols, universe, cfg.unary, cfg))
+            hidden = [t for i in sorted(leaf_indices(main)) for t in leaves[i][1] if t not in cols]
+            node = draw(st_unary_node(main, cols, universe, cfg.unary, cfg, hidden=hidden))
             node = _steer_unary(node, main, avoid, cols)
         elif choice == "mat":
             if not (steer and _unsliced_sort(main)):
